@@ -9,6 +9,83 @@ import random as pyrandom
 import numpy as np
 from scipy.stats import binom
 
+# Seam for threads quara might start itself: concurrent.futures.ThreadPoolExecutor is replaced (before quara is imported,
+# so that `from concurrent.futures import ThreadPoolExecutor` binds the stand-in too) by an executor whose tasks run one
+# at a time in an order the simulator decides: submission order in the reference world, a seeded permutation in the live
+# world.  quara does not use executors today; the seam costs nothing until it does.
+import concurrent.futures as _cf
+
+
+class _SimFuture:
+    def __init__(self, pool, idx):
+        self._pool, self._idx = pool, idx
+
+    def result(self, timeout=None):
+        self._pool._run_all()
+        r = self._pool._results[self._idx]
+        if isinstance(r, _Raised):
+            raise r.exc
+        return r
+
+    def done(self):
+        return self._pool._ran
+
+    def exception(self, timeout=None):
+        self._pool._run_all()
+        r = self._pool._results[self._idx]
+        return r.exc if isinstance(r, _Raised) else None
+
+
+class _Raised:
+    def __init__(self, exc):
+        self.exc = exc
+
+
+class SimThreadPoolExecutor:
+    ORDER_RNG = None  # set by the run: None -> submission order (reference world), Random -> seeded permutation (live world)
+    USED = 0
+
+    def __init__(self, max_workers=None, *a, **kw):
+        self._tasks, self._results, self._ran = [], {}, False
+
+    def __enter__(self):
+        return self
+
+    def __exit__(self, *exc):
+        self._run_all()
+        return False
+
+    def shutdown(self, wait=True, **kw):
+        self._run_all()
+
+    def submit(self, fn, *args, **kwargs):
+        self._tasks.append((fn, args, kwargs))
+        self._ran = False
+        return _SimFuture(self, len(self._tasks) - 1)
+
+    def map(self, fn, *iterables, timeout=None, chunksize=1):
+        futs = [self.submit(fn, *args) for args in zip(*iterables)]
+        self._run_all()
+        return iter([f.result() for f in futs])
+
+    def _run_all(self):
+        if self._ran:
+            return
+        pending = [i for i in range(len(self._tasks)) if i not in self._results]
+        if SimThreadPoolExecutor.ORDER_RNG is not None and len(pending) > 1:
+            SimThreadPoolExecutor.ORDER_RNG.shuffle(pending)
+        for i in pending:
+            fn, args, kwargs = self._tasks[i]
+            SimThreadPoolExecutor.USED += 1
+            try:
+                self._results[i] = fn(*args, **kwargs)
+            except BaseException as e:
+                self._results[i] = _Raised(e)
+        self._ran = True
+
+
+_cf.ThreadPoolExecutor = SimThreadPoolExecutor
+
 from simcore.util import digest, from_jsonable, rng_for, to_jsonable
 
 import quara.qcircuit.data_generator as dg
@@ -518,6 +595,8 @@ DATA_ENTRIES = ("gen_data", "gen_dataset", "exp_data", "exp_dataset")
 
 def gen_stream(rng, pool, allow_none=True):
     r = rng.random()
+    if r < 0.06:
+        return {"k": "rs", "i": rng.randrange(len(pool["gens"]))}
     if r < 0.4:
         return {"k": "int", "s": rng.randrange(40)}
     if r < 0.8 or not allow_none:
@@ -624,6 +703,7 @@ def generate_record(seed, tier, opts):
         p_twin = rng.choice([0.0, 0.1, 0.2])
         p_malformed = rng.choice([0.0, 0.05])
         p_replace = 0.0 if fault_free else rng.choice([0.0, 0.05, 0.1])
+        p_reentrant = 0.0 if fault_free else rng.choice([0.0, 0.05, 0.12])
         # swarm: a random subset of entry points gets most of the weight
         fav = set(rng.sample([e for e, _ in ENTRY_WEIGHTS], rng.randint(3, len(ENTRY_WEIGHTS))))
         entries = [(e, w * (3 if e in fav else 0.3)) for e, w in ENTRY_WEIGHTS]
@@ -656,7 +736,13 @@ def generate_record(seed, tier, opts):
                     steps[-1]["stream"] = {"k": "gen", "i": 0}
             elif r < p_fault + p_boundary + p_twin + p_malformed:
                 steps.append(gen_malformed(rng, pool))
-            elif r < p_fault + p_boundary + p_twin + p_malformed + p_replace:
+            elif r < p_fault + p_boundary + p_twin + p_malformed + p_reentrant:
+                e1, a1 = gen_call(rng, pool, entries, small=True)
+                e2, a2 = gen_call(rng, pool, entries, small=True)
+                steps.append({"op": "interleaved", "outer": {"entry": e1, "a": a1, "seed": rng.randrange(40)}, "inner": {"entry": e2, "a": a2, "seed": rng.randrange(40)},
+                              "at": [rng.choice(["_random_number_to_data", "_random_number_to_data", "to_stream", "validate_prob_dist", "generate_empi_dist_sequence_from_prob_dist", "calc_prob_dist",
+                                                 "generate_data_from_prob_dist", "curried_random_number_to_data"]), rng.choice([1, 2, 3, 5])]})
+            elif r < p_fault + p_boundary + p_twin + p_malformed + p_reentrant + p_replace:
                 what = rng.choice(["state", "state", "povm", "gate"])
                 name = rng.choice({"state": STATE_NAMES, "povm": POVM_NAMES, "gate": GATE_NAMES}[what])
                 steps.append({"op": "replace_in_experiment", "what": what, "i": rng.randrange(4), "name": name})
@@ -748,16 +834,23 @@ class Run:
             pyrandom.setstate(py_s)
 
     # --- stream materialisation --------------------------------------------------------------
-    def _mixed(self, spec, gens):
+    def _mixed(self, spec, gens, rss):
         out = []
         for it in spec["items"]:
-            out.append(it["s"] if it["k"] == "int" else (gens[it["i"]] if it["k"] == "gen" else None))
+            if it["k"] == "int":
+                out.append(it["s"])
+            elif it["k"] == "gen":
+                out.append(gens[it["i"]])
+            elif it["k"] == "rs":
+                out.append(rss[it["i"] % len(rss)])
+            else:
+                out.append(None)
         return out
 
     def live_stream(self, entry, spec, a):
         k = spec["k"]
         if k == "mixed":
-            return self._mixed(spec, self.gens)
+            return self._mixed(spec, self.gens, self.rstates)
         if k == "int":
             if entry == "gen_dataset":
                 return [spec["s"] + j for j in range(len(a["vs"]))]
@@ -765,17 +858,88 @@ class Run:
         if k == "gen":
             g = self.gens[spec["i"]]
             return [g] * len(a["vs"]) if entry == "gen_dataset" else g
+        if k == "rs":
+            g = self.rstates[spec["i"] % len(self.rstates)]
+            return [g] * len(a["vs"]) if entry == "gen_dataset" else g
         if k == "none":
             return None
         raise ValueError(k)
 
     def shadow_stream(self, entry, spec, a):
         if spec["k"] == "mixed":
-            return self._mixed(spec, self.shadows)
+            return self._mixed(spec, self.shadows, self.rshadows)
         if spec["k"] == "gen":
             g = self.shadows[spec["i"]]
             return [g] * len(a["vs"]) if entry == "gen_dataset" else g
+        if spec["k"] == "rs":
+            g = self.rshadows[spec["i"] % len(self.rshadows)]
+            return [g] * len(a["vs"]) if entry == "gen_dataset" else g
         return self.live_stream(entry, spec, a)
+
+    # --- a second call made while the first one is in progress ------------------------------------
+    def do_interleaved(self, idx, st):
+        """fault kind reentrant_call: at the k-th entry of a quara function inside the outer request, another request (other
+        arguments, its own integer seed) runs to completion - the deterministic, single-threaded image of two threads in the
+        generation code at once.  Both outputs must be what each request returns alone."""
+        import sys
+
+        MON = sys.monitoring
+        outer, inner = st["outer"], st["inner"]
+        fresh = self.fresh_world()
+        np_s, py_s = np.random.get_state(), pyrandom.getstate()
+        try:
+            ref_outer = _canon(call_entry(fresh, outer["entry"], outer["a"], outer["seed"]))
+            ref_inner = _canon(call_entry(self.fresh_world(), inner["entry"], inner["a"], inner["seed"]))
+        except Exception:
+            return
+        finally:
+            np.random.set_state(np_s)
+            pyrandom.setstate(py_s)
+        box = {"n": 0, "inner_out": None, "busy": False, "fired": False}
+        target, occ = st["at"]
+        world = self.world
+
+        def cb(code, offset):
+            if box["busy"] or code.co_name != target:
+                return
+            box["n"] += 1
+            if box["n"] == occ:
+                box["busy"] = True
+                try:
+                    box["inner_out"] = _canon(call_entry(world, inner["entry"], inner["a"], inner["seed"]))
+                    box["fired"] = True
+                finally:
+                    box["busy"] = False
+
+        TOOL = 2
+        try:
+            MON.use_tool_id(TOOL, "rngsim-reentrant")
+        except ValueError:
+            pass
+        MON.register_callback(TOOL, MON.events.PY_START, cb)
+        MON.set_events(TOOL, MON.events.PY_START)
+        try:
+            out_outer = _canon(call_entry(self.world, outer["entry"], outer["a"], outer["seed"]))
+        finally:
+            MON.set_events(TOOL, 0)
+            MON.register_callback(TOOL, MON.events.PY_START, None)
+            try:
+                MON.free_tool_id(TOOL)
+            except ValueError:
+                pass
+        self.log.append(["interleaved", digest(out_outer), box["fired"]])
+        if not box["fired"]:
+            return
+        self.bump("faults", "reentrant_call")
+        self.bump("oracle_checks", "R5_reentrant")
+        self.pending_fault = True
+        sig = {"op": "interleaved", "outer": outer["entry"], "inner": inner["entry"], "at": target}
+        if not outputs_equal(out_outer, ref_outer):
+            raise Violation("R5_reentrant", f"{outer['entry']} (seed {outer['seed']}) returned something else than alone when {inner['entry']} ran during its {occ}-th entry of {target}",
+                            {"step": idx, "outer": outer, "inner": inner, "at": st["at"]}, sig)
+        if not outputs_equal(box["inner_out"], ref_inner):
+            raise Violation("R5_reentrant", f"{inner['entry']} (seed {inner['seed']}) returned something else than alone when it ran inside {outer['entry']} (at the {occ}-th entry of {target})",
+                            {"step": idx, "outer": outer, "inner": inner, "at": st["at"]}, dict(sig, which="inner"))
 
     # --- one generation call with all oracles -------------------------------------------------
     def do_call(self, idx, entry, a, spec, crafted=None):
@@ -793,12 +957,16 @@ class Run:
         else:
             stream_live = self.live_stream(entry, spec, a)
         # ---- live call
+        SimThreadPoolExecutor.ORDER_RNG = pyrandom.Random(self.record["seed"] * 1000003 + idx)
         try:
             out = call_entry(self.world, entry, a, stream_live)
             exc = None
         except Exception as e:  # a well-formed request must not raise
+            SimThreadPoolExecutor.ORDER_RNG = None
             raise Violation("V0_wellformed_call_raises", f"{entry} raised {type(e).__name__}: {str(e)[:200]}",
                             {"step": idx, "entry": entry, "args": a, "stream": spec}, dict(sig, exc=type(e).__name__))
+        finally_reset = SimThreadPoolExecutor.ORDER_RNG
+        SimThreadPoolExecutor.ORDER_RNG = None
         out = _canon(out)
         np1, py1_d = _np_state(), _py_digest()
         np1_d = _np_state_digest(np1)
@@ -826,7 +994,7 @@ class Run:
             if d0 != d1 and not (k == "gen" and spec["i"] == j) and j not in mixed_gens:
                 raise Violation("R_isolation", f"{entry} with stream kind {k} advanced unrelated pool generator {j}", {"step": idx, "entry": entry, "args": a, "stream": spec}, dict(sig, state="pool_generator"))
         # ---- reference call in a fresh world
-        self.bump("oracle_checks", {"int": "R1", "gen": "R2", "none": "R3", "crafted": "R1", "mixed": "R_mixed_stream_list"}[k])
+        self.bump("oracle_checks", {"int": "R1", "gen": "R2", "rs": "R2_legacy_generator", "none": "R3", "crafted": "R1", "mixed": "R_mixed_stream_list"}[k])
         try:
             if k == "int":
                 np.random.seed(PRISTINE_SEED)
@@ -835,7 +1003,7 @@ class Run:
             elif k == "crafted":
                 np.random.seed(PRISTINE_SEED)
                 ref = call_entry(fresh, entry, a, stream_ref)
-            elif k == "gen":
+            elif k in ("gen", "rs"):
                 np.random.seed(PRISTINE_SEED)
                 ref = call_entry(fresh, entry, a, self.shadow_stream(entry, spec, a))
             elif k == "mixed":
@@ -864,12 +1032,22 @@ class Run:
         if self.pending_fault and self.compared_calls >= 2:
             self.fault_between = True
         if not outputs_equal(out, ref):
-            names = {"int": "R1_seed_function", "crafted": "R1_seed_function", "gen": "R2_shared_generator", "none": "R3_global_stream", "mixed": "R_mixed_stream_list"}
+            names = {"int": "R1_seed_function", "crafted": "R1_seed_function", "gen": "R2_shared_generator", "none": "R3_global_stream", "mixed": "R_mixed_stream_list", "rs": "R2_shared_generator"}
             raise Violation(names[k], f"{entry} (stream kind {k}): output differs from the same call in a fresh world",
                             {"step": idx, "entry": entry, "args": a, "stream": spec, "live": to_jsonable(out) if len(str(out)) < 2000 else "…", "reference": to_jsonable(ref) if len(str(ref)) < 2000 else "…"}, sig)
+        if k == "mixed":
+            for it in spec["items"]:
+                if it["k"] == "rs":
+                    j = it["i"] % len(self.rstates)
+                    if _np_state_digest(self.rstates[j].get_state()) != _np_state_digest(self.rshadows[j].get_state()):
+                        raise Violation("R2_shared_generator", f"{entry}: legacy generator {j} of the stream list ends in a state that differs from the reference model's", {"step": idx, "entry": entry, "args": a, "stream": spec}, sig)
         for j in sorted(mixed_gens):
             if _gen_digest(self.gens[j]) != _gen_digest(self.shadows[j]):
                 raise Violation("R2_shared_generator", f"{entry}: generator {j} of the stream list ends in a state that differs from the reference model's", {"step": idx, "entry": entry, "args": a, "stream": spec}, sig)
+        if k == "rs":
+            j = spec["i"] % len(self.rstates)
+            if _np_state_digest(self.rstates[j].get_state()) != _np_state_digest(self.rshadows[j].get_state()):
+                raise Violation("R2_shared_generator", f"{entry}: the legacy generator object handed over ends in a state that differs from the reference model's (was it used at all?)", {"step": idx, "entry": entry, "args": a}, dict(sig, state="legacy_generator"))
         if k == "gen":
             if _gen_digest(self.gens[spec["i"]]) != _gen_digest(self.shadows[spec["i"]]):
                 raise Violation("R2_shared_generator", f"{entry}: shared generator state after the call differs from the reference model's", {"step": idx, "entry": entry, "args": a}, sig)
@@ -1031,6 +1209,9 @@ class Run:
             if self.compared_calls >= 1:
                 self.pending_fault = True
             self.do_call(idx, st["entry"], st["a"], {"k": "crafted"}, crafted=nums)
+        elif op == "interleaved":
+            self.kinds.append(["interleaved", st["outer"]["entry"], st["inner"]["entry"], st["at"][0]])
+            self.do_interleaved(idx, st)
         elif op == "malformed":
             self.kinds.append(["malformed", st["kind"]])
             self.malformed(idx, st)
@@ -1238,6 +1419,9 @@ class Run:
         self.obj_seed = {"qst": sd, "povmt": sd, "qpt": sd, "qmpt": sd, "exp": self.pool["experiment"].get("seed_data")}
         self.gens = [np.random.Generator(np.random.MT19937(s)) for s in self.pool["gens"]]
         self.shadows = [copy.deepcopy(g) for g in self.gens]
+        # legacy generator objects (numpy RandomState) handed over explicitly: they work with every entry point today
+        self.rstates = [np.random.RandomState(5000 + s) for s in self.pool["gens"]]
+        self.rshadows = [copy.deepcopy(g) for g in self.rstates]
         self.gen_users = {}
         from simcore.known import known_signatures, matches
 
